@@ -14,7 +14,7 @@ import numpy as np
 LINE_HEIGHT = 16
 HEIGHTS = (12.0, 4.0)
 BLOCK = 8                     # pixels per symbol block -> 2 frames at subsampling 4
-COLORS = [(255, 0, 0), (0, 255, 0), (0, 0, 255), (255, 255, 0), (255, 0, 255), (0, 255, 255), (255, 255, 255)]
+COLORS = [(255, 0, 0), (0, 255, 0), (0, 0, 255), (255, 255, 0), (255, 0, 255), (0, 255, 255), (255, 128, 0)]
 
 
 def ensure_engine_files(d, chars, scale=8.0):
@@ -41,7 +41,11 @@ def ensure_engine_files(d, chars, scale=8.0):
                 m = torch.nn.functional.avg_pool1d(m, 4)            # N,3,W/4
                 dot = torch.einsum('kc,ncw->nkw', self.cols, m)
                 sq = (self.cols * self.cols).sum(dim=1).unsqueeze(0).unsqueeze(2)
-                return self.scale * (2.0 * dot - sq)                 # N,K+1,T ; blank (black) is the last class
+                out = self.scale * (2.0 * dot - sq)                  # N,K+1,T ; the last class is the blank
+                # the blank is 'no colour': black (padding, page background) as well as white paper
+                chroma = m.max(dim=1).values - m.min(dim=1).values  # N,T
+                blank = self.scale * (1.5 - 3.0 * chroma)
+                return torch.cat([out[:, :-1, :], blank.unsqueeze(1)], dim=1)
         torch.jit.script(StubNet()).save(ck)
     return js
 
@@ -163,10 +167,12 @@ def paint_text_page(page_spec):
     for j, ln in enumerate(page_spec['lines']):
         rs = np.random.RandomState(int(ln['seed']) % (2 ** 31))
         y = 40 + 50 * j
+        nch = int(page_spec.get('ink_colours', 0))
         for b in range(int(ln['blocks'])):
             if rs.rand() < 0.85:
                 x = 30 + 12 * b
-                img[y - 14:y, x:x + 8] = 0
+                ink = np.asarray(COLORS[rs.randint(0, nch)], dtype=np.uint8) if nch else 0   # coloured ink: readable by the stub OCR
+                img[y - 14:y, x:x + 8] = ink
                 if ln.get('descenders') and rs.rand() < 0.4:
-                    img[y:y + 9, x + 2:x + 5] = 0       # glyph-like descender below the body
+                    img[y:y + 9, x + 2:x + 5] = ink      # glyph-like descender below the body
     return img
